@@ -87,7 +87,7 @@
             new_iter.will_return_none() == wn0,
         invariant
             clone_exact::<P>(),
-            P::obeys_cmp_spec(),
+            total_order::<P>(),
             old_iter.obeys_prophetic_iter_laws(), old_iter.decrease() is Some,
             new_iter.obeys_prophetic_iter_laws(), new_iter.decrease() is Some,
             opt_old is None ==> old_iter.remaining().len() == 0 && old_iter.will_return_none(),
@@ -163,7 +163,7 @@
             items.items@.len() + rest(opt_old, old_iter.remaining()).len() + rest(opt_new, new_iter.remaining()).len() <= usize::MAX,
         invariant
             clone_exact::<P>(),
-            P::obeys_cmp_spec(),
+            total_order::<P>(),
             old_iter.obeys_prophetic_iter_laws(), old_iter.decrease() is Some,
             new_iter.obeys_prophetic_iter_laws(), new_iter.decrease() is Some,
             opt_old is None ==> old_iter.remaining().len() == 0,
@@ -310,7 +310,7 @@
             old_iter.will_return_none() == wo0,
             new_iter.will_return_none() == wn0,
         invariant
-            Asn::obeys_cmp_spec(),
+            total_order::<Asn>(),
             old_iter.obeys_prophetic_iter_laws(), old_iter.decrease() is Some,
             new_iter.obeys_prophetic_iter_laws(), new_iter.decrease() is Some,
             opt_old is None ==> old_iter.remaining().len() == 0 && old_iter.will_return_none(),
@@ -384,7 +384,7 @@
             items.items@.len() + rest(opt_old, old_iter.remaining()).len() + rest(opt_new, new_iter.remaining()).len() <= usize::MAX,
         invariant
             clone_exact::<AspaAction>(),
-            Asn::obeys_cmp_spec(),
+            total_order::<Asn>(),
             old_iter.obeys_prophetic_iter_laws(), old_iter.decrease() is Some,
             new_iter.obeys_prophetic_iter_laws(), new_iter.decrease() is Some,
             opt_old is None ==> old_iter.remaining().len() == 0,
